@@ -186,6 +186,7 @@ func ChunkStream(ctx context.Context, c Chunker, ws WriteStore, n int) (Index, e
 	// order, we calculate the checksum here before handing	them over to the
 	// workers for compression and storage. That could probablybe optimized further
 	var num int // chunk #, so we can re-assemble the index in the right order later
+	var interrupted bool
 loop:
 	for {
 		start, b, err := c.Next()
@@ -201,6 +202,7 @@ loop:
 		select {
 		case <-ctx.Done():
 			verifYield("pl.leave")
+			interrupted = true
 			break loop
 		case in <- chunkJob{num: num, start: start, b: b}:
 		}
@@ -211,6 +213,9 @@ loop:
 
 	if err := g.Wait(); err != nil {
 		return Index{}, err
+	}
+	if interrupted { // stopped feeding without a worker error: the stream was not chunked completely
+		return Index{}, Interrupted{}
 	}
 
 	// All the chunks have been processed and are stored in a map. Now build a
